@@ -28,7 +28,7 @@ CTX_D = {'macros': [['p', S('m', 'm0')], ['q', S('m0')], ['pm', S(['m0', '+'], '
          'envs': [['en', S('m0'), False]], 'specials': [['~', S()], ['!', S('m0')]], 'um': S(), 'ue': [S(), False]}
 # \verb-like macros of the legacy verbatim parser WITH leading standard arguments (documented keyword verbatim_argspec):
 # not expressible in the Lean context type, exercised by the oracles only
-CTX_E = {'macros': [['li', ['LVA', '[']], ['mi', ['LVA', '{']], ['lm', ['LVA', '[{']], ['verb', ['LV']], ['z', S()]],
+CTX_E = {'macros': [['eqn', ['S', [['m', ''], ['TK', '']]]], ['li', ['LVA', '[']], ['mi', ['LVA', '{']], ['lm', ['LVA', '[{']], ['verb', ['LV']], ['z', S()]],
          'envs': [['en', S('o1'), False], ['vb', ['VB'], False]], 'specials': [['~', S()]], 'um': S(), 'ue': [S(), False]}
 # a user hook that raises a position-less parse error (tolerant mode must swallow it like any other parse error); oracle only
 # argument deltas given as a chain (ParsingStateDeltaChained: mode switch first, then an unrelated setting); oracle only
@@ -39,7 +39,7 @@ CTX_F = {'macros': [['ref', ['SH', [['m', '']]]], ['so', ['SH', [['o1', ''], ['m
          'envs': [['en', ['SH', [['m', '']]], False]], 'specials': [['~', S()]], 'um': S(), 'ue': [S(), False]}
 CONTEXTS = {'A': CTX_A, 'B': CTX_B, 'C': CTX_C, 'D': CTX_D, 'E': CTX_E, 'F': CTX_F, 'G': CTX_G, 'default': 'default'}
 ATOMS_F = ['a', ' ', '\n', '{}', '{x}', '[]', '[o]', '{', '}', '$', '~', '\\ref', '\\so', '\\m', '\\z', '\\begin{en}', '\\end{en}', '%c\n']
-ATOMS_E = ['a', ' ', '\n', '{x}', '[o]', '|', '|c|', '!v!', '{', '}', '[', '$', '%c\n', '~', '\\li', '\\mi', '\\lm', '\\verb', '\\z', '+a[1]+', '\\begin{en}', '\\end{en}', '\\begin{vb}', '\\end{vb}', '\\end{vb']
+ATOMS_E = ['a', ' ', '\n', '{x}', '[o]', '|', '|c|', '!v!', '{', '}', '[', '$', '%c\n', '~', '\\li', '\\mi', '\\lm', '\\verb', '\\z', '+a[1]+', '\\begin{en}', '\\end{en}', '\\begin{vb}', '\\end{vb}', '\\end{vb', '\\eqn{x}', '\\notag', '\\label{l}', '\\tag']
 ATOMS_D = ['a', ' ', '\n', '{', '}', '[', '$', '%c\n', '~', '!', '\\p', '\\q', '\\pm', '\\z', '\\begin{en}', '\\end{en}', '\\', '\\(', '\\)', '\\begin', '\t']
 
 ATOMS_DEFAULT = ['a', ' ', '\n', '{', '}', '[', ']', '$', '%', '~', '\\', '\\(', '\\)', '\\[', '\\]', '\\\\',
